@@ -282,6 +282,15 @@ func (g *G) wrapTx(msgs []sdk.Msg, note string, aminoOK bool) *world.TxStep {
 	for _, m := range msgs {
 		ts.Msgs = append(ts.Msgs, world.EncodeMsg(m))
 	}
+	if ts.Fee != "" && g.chance("fee-granter", g.bias("fee-granter", 2)) {
+		// AuthInfo.fee.granter: one of the signers (often not the first) or any account; no
+		// allowance was ever granted
+		ts.FeeGranter = 1 + g.intn("granter", world.NumAccounts)
+		if len(ts.Signers) > 0 && g.chance("granter-is-signer", 70) {
+			ts.FeeGranter = 1 + ts.Signers[len(ts.Signers)-1-g.intn("which-signer", len(ts.Signers))].Acct
+		}
+		ts.Note += " fee-granter"
+	}
 	if g.chance("tip", g.bias("tip", 2)) {
 		// the optional AuthInfo.tip names a tipper (any account, signer or not) and an amount
 		ts.TipFrom = 1 + g.intn("tipper", world.NumAccounts)
